@@ -43,6 +43,10 @@ def gen_geometry(rng, kind, sph):
         prof.append((L, a0r, a1r))
         total += L
         a0 = a1r
+        if rng.random() < 0.3:
+            # a kink: the next segment starts with another dip (flattening kinks give points above the surface a perpendicular foot on
+            # both neighbours, steepening kinks a wedge without any foot)
+            a0 = max(3.0, min(177.0, a1r + rng.uniform(-45, 45)))
     d0 = 0.0 if rng.random() < 0.4 else wg.num(rng, 0, 2e5)
     d1 = wg.DBL_MAX if rng.random() < 0.6 else wg.R(d0 + wg.num(rng, 1e5, 8e5))
     f = {'model': kind, 'name': 'the plane', 'segments': segs}
